@@ -26,6 +26,8 @@ MODEL_SWITCHES = [
     ("MC_Conc4", "MC_Conc4_bug6.cfg", "ScanOK", "F17: scan returns a key twice after unlink + re-insert"),
     ("MC_Conc4", "MC_Conc4_bug7.cfg", "ScanOK", "cursor keeps its rank when the permutation of its border changed"),
     ("MC_Conc4", "MC_Conc4_bug8.cfg", "ScanOK", "right-to-left scan starting from a fresh version instead of the one of the validated descent (seeds C04b / C04c)"),
+    ("MC_Conc6", "MC_Conc6_bug1.cfg", "ParentOK", "lock_parent without the re-check of the parent after locking"),
+    ("MC_Conc6", "MC_Conc6_bug2.cfg", "LinOK", "interior split without the splitting mark"),
     ("YkEpoch", "MC_Epoch_bug.cfg", "SafeStrong", "F5: two-step enter"),
     ("YkLife", "MC_Life_bug.cfg", "ThreadsAliveWhileRunning", "F4: stop flags not cleared"),
     ("MC_Tree", "MC_Tree_scan5_f2.cfg", "ScanOK", "F2: scan uses l_key with INF"),
